@@ -1,4 +1,161 @@
+//! C14 — CL03 blind issuance works for every hidden-attribute set and is gated (form A, deviation bound <= 1).
+#![allow(non_snake_case)]
 use crate::common::*;
-use zkryptium::cl03::keys::{CL03PublicKey, CL03SecretKey};
+use mccore::{int_leaf_paths, json_get, json_set, par_for, path_class, subsets, O};
+use rug::Integer;
+use serde_json::{json, Value};
+use zkryptium::cl03::bases::Bases;
+use zkryptium::cl03::commitment::CL03Commitment;
+use zkryptium::cl03::keys::{CL03CommitmentPublicKey, CL03PublicKey, CL03SecretKey};
 use zkryptium::schemes::algorithms::{Scheme, CL03};
-pub fn run<CS: Suite>(_env: &Env) where CL03<CS>: Scheme<PubKey = CL03PublicKey, PrivKey = CL03SecretKey>, CS::HashAlg: sha2::Digest {}
+use zkryptium::schemes::generics::{BlindSignature, Commitment, Signature, ZKPoK};
+use zkryptium::utils::message::cl03_message::CL03Message;
+
+pub struct Flow<CS: Suite> where CL03<CS>: Scheme {
+    pub m: Vec<Integer>,
+    pub u: Vec<usize>,
+    pub revealed_idx: Vec<usize>,
+    pub c: Commitment<CL03<CS>>,
+    pub c_trusted: Option<Commitment<CL03<CS>>>,
+    pub zkpok: ZKPoK<CL03<CS>>,
+}
+
+/// honest holder side of an issuance: commitment(s) + proof of knowledge
+pub fn holder<CS: Suite>(w: &World<CS>, n: usize, m: &[Integer], u: &[usize], trusted: bool) -> O<Flow<CS>>
+where CL03<CS>: Scheme<PubKey = CL03PublicKey, PrivKey = CL03SecretKey>, CS::HashAlg: sha2::Digest {
+    let bases = Bases(w.bases.0[..n].to_vec());
+    let mv = msgs(m);
+    let u = u.to_vec();
+    mccore::guard_val(move || {
+        let c = Commitment::<CL03<CS>>::commit_with_pk(&mv, &w.pk, &bases, Some(&u));
+        let c_trusted = if trusted { Some(Commitment::<CL03<CS>>::commit_with_commitment_pk(&mv, &w.cpk_own, Some(&u))) } else { None };
+        let zkpok = ZKPoK::<CL03<CS>>::generate_proof(&mv, c.cl03Commitment(), c_trusted.as_ref().map(|x| x.cl03Commitment()), &w.pk, &bases, if trusted { Some(&w.cpk_own) } else { None }, &u);
+        let revealed_idx: Vec<usize> = (0..mv.len()).filter(|i| !u.contains(i)).collect();
+        Flow { m: mv.iter().map(|x| x.value.clone()).collect(), u, revealed_idx, c, c_trusted, zkpok }
+    })
+}
+
+pub fn issuer_verifies<CS: Suite>(zk: &ZKPoK<CL03<CS>>, c: &CL03Commitment, ct: Option<&CL03Commitment>, pk: &CL03PublicKey, bases: &Bases, cpk: Option<&CL03CommitmentPublicKey>, u: &[usize]) -> O<bool>
+where CL03<CS>: Scheme, CS::HashAlg: sha2::Digest { vcall(|| zk.verify_proof(c, ct, pk, bases, cpk, u)) }
+
+pub fn run<CS: Suite>(env: &Env)
+where CL03<CS>: Scheme<PubKey = CL03PublicKey, PrivKey = CL03SecretKey>, CS::HashAlg: sha2::Digest {
+    let seed = env.ctx.seed;
+    let maxn = if env.thorough() { 5 } else { 3 };
+    let worlds: Vec<World<CS>> = { let v = std::sync::Mutex::new(Vec::new()); par_for(&[0, 1], |_, _| { let w = World::<CS>::generate(maxn); v.lock().unwrap().push(w); }); v.into_inner().unwrap() };
+    let (w, other) = (&worlds[0], &worlds[1]);
+    #[derive(Clone)]
+    enum Kind { Flow, Leaf(usize, usize) } // Leaf(chunk, nchunks)
+    struct Root { id: String, n: usize, u: Vec<usize>, trusted: bool, kind: Kind }
+    let mut roots = Vec::new();
+    for n in 1..=maxn { for u in subsets(n) { if u.is_empty() { continue; } for trusted in [false, true] {
+        if n > 3 && trusted && u.len() != 1 && u.len() != n { continue; }
+        roots.push(Root { id: format!("{}/n{}/hidden{:?}/{}", CS::NAME, n, u, if trusted { "trusted" } else { "untrusted" }), n, u: u.clone(), trusted, kind: Kind::Flow });
+    } } }
+    // leaf edits: one proof per (n, |U|) class (untrusted), plus one trusted proof; split in chunks for parallelism
+    let mut classes: Vec<(usize, Vec<usize>, bool)> = vec![];
+    for n in 1..=3usize { for k in 1..=n { classes.push((n, (n - k..n).collect(), false)); } }
+    classes.push((2, vec![1], true));
+    if !env.thorough() { classes.retain(|c| c.0 <= 2 || c.1.len() == 1); }
+    for (n, u, t) in classes { let nch = 8; for ch in 0..nch { roots.push(Root { id: format!("{}/leaf-edits/n{}/hidden{:?}/{}/chunk{}", CS::NAME, n, u, if t { "trusted" } else { "untrusted" }, ch), n, u: u.clone(), trusted: t, kind: Kind::Leaf(ch, nch) }); } }
+    env.ctx.set_rule("flows: n in 1..=3 (thorough 1..=5) attributes x ALL non-empty hidden-position subsets U x {no trusted party, trusted-party commitment over an own-modulus key}: commit_with_pk(U) -> generate_proof -> verify_proof = true -> blind_sign -> unblind_sign -> verify_multiattr(full vector) = true; per flow every mismatch: commitment to other attributes, EVERY other subset U' as claimed hidden set, other bases, other issuer key, other/missing trusted commitment => verify_proof = false and blind_sign returns no signature (its panic is the documented refusal); update_signature for every revealed position => valid on the updated vector only. Leaf edits: one proof per (n, |U|) class: EVERY integer leaf of the serialized ZKPoK +1 / -1 / zero / swapped with its sibling => issuer refuses. State = (flow, edit); non-trivial = the real issuer-side verifier ran.");
+    par_for(&roots, |_, r| {
+        if !env.want(&r.id) || env.ctx.out_of_time() { return; }
+        let n = r.n;
+        let m = distinct_attrs(seed, "c14", n);
+        let bases = Bases(w.bases.0[..n].to_vec());
+        let det0 = json!({"suite": CS::NAME, "n": n, "hidden": r.u, "trusted_party": r.trusted});
+        let f = match holder::<CS>(w, n, &m, &r.u, r.trusted) { O::Ok(f) => f, o => { env.ctx.violation("C14:holder-side-failed", &o.describe(), env.case(&r.id, det0)); return; } };
+        env.ctx.steps(2);
+        let cpk = if r.trusted { Some(&w.cpk_own) } else { None };
+        let ct = f.c_trusted.as_ref().map(|x| x.cl03Commitment());
+        match &r.kind {
+            Kind::Flow => {
+                env.ctx.state(&[r.id.as_bytes()]);
+                let ok = issuer_verifies::<CS>(&f.zkpok, f.c.cl03Commitment(), ct, &w.pk, &bases, cpk, &r.u);
+                if !expect_bool(env, &r.id, "verify_proof(generate_proof(..))", &ok, true, false, "complete:verify_proof", det0.clone()) { env.ctx.trace(); return; }
+                let rm: Vec<CL03Message> = f.revealed_idx.iter().map(|&i| msg(&m[i])).collect();
+                let issue = |rm: &[CL03Message]| -> O<Signature<CL03<CS>>> { mccore::guard_val(|| {
+                    let bs = BlindSignature::<CL03<CS>>::blind_sign(&w.pk, &w.sk, &bases, &f.zkpok, if rm.is_empty() { None } else { Some(rm) }, f.c.cl03Commitment(), ct, cpk, &r.u, if rm.is_empty() { None } else { Some(&f.revealed_idx) });
+                    bs.unblind_sign(&f.c)
+                }) };
+                let sig = issue(&rm); env.ctx.step();
+                match &sig {
+                    O::Ok(s) => { let mv = msgs(&m); expect_bool(env, &r.id, "verify_multiattr(unblind(blind_sign(..)), full vector)", &vcall(|| s.verify_multiattr(&w.pk, &bases, &mv)), true, false, "complete:unblinded-signature", det0.clone()); }
+                    o => env.ctx.violation("C14:complete:blind_sign:refused", &format!("issuer refused an honest request: {}", o.describe()), env.case(&r.id, det0.clone())),
+                }
+                env.ctx.class("complete"); env.ctx.trace();
+                // update: change each revealed attribute, re-issue with the same commitment, valid on the updated vector only
+                for (k, &pos) in f.revealed_idx.iter().enumerate() {
+                    env.ctx.state(&[r.id.as_bytes(), format!("update{}", pos).as_bytes()]);
+                    let mut m2 = m.clone(); m2[pos] = m2[pos].clone() ^ Integer::from(1u32 << 7);
+                    let mut rm2 = rm.clone(); rm2[k] = msg(&m2[pos]);
+                    let upd = mccore::guard_val(|| {
+                        let bs = BlindSignature::<CL03<CS>>::blind_sign(&w.pk, &w.sk, &bases, &f.zkpok, Some(&rm), f.c.cl03Commitment(), ct, cpk, &r.u, Some(&f.revealed_idx));
+                        bs.update_signature(Some(&rm2), f.c.cl03Commitment(), &w.sk, &w.pk, &bases, Some(&f.revealed_idx)).unblind_sign(&f.c)
+                    }); env.ctx.step();
+                    match upd { O::Ok(s) => { let (a, b) = (msgs(&m2), msgs(&m));
+                            expect_bool(env, &r.id, &format!("updated signature (position {}) verifies on the updated vector", pos), &vcall(|| s.verify_multiattr(&w.pk, &bases, &a)), true, false, "update:new-vector", json!({"base": det0, "updated_position": pos}));
+                            expect_bool(env, &r.id, &format!("updated signature (position {}) must not verify on the old vector", pos), &vcall(|| s.verify_multiattr(&w.pk, &bases, &b)), false, true, "update:old-vector", json!({"base": det0, "updated_position": pos})); }
+                        o => env.ctx.violation("C14:update:failed", &o.describe(), env.case(&r.id, json!({"base": det0, "updated_position": pos}))) }
+                    env.ctx.class("update"); env.ctx.trace();
+                }
+                // statement mismatches: the issuer must refuse (verify_proof false / panic; blind_sign returns nothing)
+                let mut refuse = |name: String, cls: &str, zk: &ZKPoK<CL03<CS>>, c: &CL03Commitment, ct2: Option<&CL03Commitment>, pk: &CL03PublicKey, sk: &CL03SecretKey, b: &Bases, cpk2: Option<&CL03CommitmentPublicKey>, u2: &[usize]| {
+                    if !env.ctx.state(&[r.id.as_bytes(), name.as_bytes()]) { return; }
+                    let got = issuer_verifies::<CS>(zk, c, ct2, pk, b, cpk2, u2);
+                    expect_bool(env, &r.id, &format!("verify_proof with [{}]", name), &got, false, true, &format!("gate:{}", cls), json!({"base": det0, "mismatch": name}));
+                    let ridx: Vec<usize> = (0..n).filter(|i| !u2.contains(i)).collect();
+                    let rm2: Vec<CL03Message> = ridx.iter().map(|&i| msg(&m[i])).collect();
+                    let bs = mccore::guard_val(|| BlindSignature::<CL03<CS>>::blind_sign(pk, sk, b, zk, if rm2.is_empty() { None } else { Some(&rm2) }, c, ct2, cpk2, u2, if rm2.is_empty() { None } else { Some(&ridx) })); env.ctx.step();
+                    if bs.is_ok() { env.ctx.violation(&format!("C14:gate:{}:signed", cls), &format!("blind_sign issued a signature with [{}]", name), env.case(&r.id, json!({"base": det0, "mismatch": name}))); }
+                    env.ctx.class(&format!("refuse:{}", cls)); env.ctx.trace();
+                };
+                let m_other = distinct_attrs(seed, "c14-other", n);
+                let mvo = msgs(&m_other);
+                let c_other = Commitment::<CL03<CS>>::commit_with_pk(&mvo, &w.pk, &bases, Some(&r.u));
+                refuse("commitment to other attributes".into(), "other-commitment", &f.zkpok, c_other.cl03Commitment(), ct, &w.pk, &w.sk, &bases, cpk, &r.u);
+                for u2 in subsets(n) { if u2 == r.u || u2.is_empty() { continue; } refuse(format!("claimed hidden set {:?}", u2), "other-hidden-set", &f.zkpok, f.c.cl03Commitment(), ct, &w.pk, &w.sk, &bases, cpk, &u2); }
+                let b2 = Bases(other.bases.0[..n].iter().map(|x| x.clone() % &w.pk.N).collect());
+                refuse("other bases".into(), "other-bases", &f.zkpok, f.c.cl03Commitment(), ct, &w.pk, &w.sk, &b2, cpk, &r.u);
+                refuse("other issuer key".into(), "other-key", &f.zkpok, f.c.cl03Commitment(), ct, &other.pk, &other.sk, &bases, cpk, &r.u);
+                if r.trusted {
+                    let mv = msgs(&m);
+                    let ct_other = Commitment::<CL03<CS>>::commit_with_commitment_pk(&mvo, &w.cpk_own, Some(&r.u));
+                    refuse("trusted commitment to other attributes".into(), "other-trusted-commitment", &f.zkpok, f.c.cl03Commitment(), Some(ct_other.cl03Commitment()), &w.pk, &w.sk, &bases, cpk, &r.u);
+                    let ct_key = Commitment::<CL03<CS>>::commit_with_commitment_pk(&mv, &other.cpk_own, Some(&r.u));
+                    refuse("trusted commitment under another commitment key".into(), "other-trusted-key", &f.zkpok, f.c.cl03Commitment(), Some(ct_key.cl03Commitment()), &w.pk, &w.sk, &bases, Some(&other.cpk_own), &r.u);
+                } else {
+                    // a proof made WITHOUT the trusted-party part presented to an issuer that requires one
+                    let mv = msgs(&m);
+                    let ct_new = Commitment::<CL03<CS>>::commit_with_commitment_pk(&mv, &w.cpk_own, Some(&r.u));
+                    refuse("issuer requires a trusted commitment the proof does not cover".into(), "missing-trusted-part", &f.zkpok, f.c.cl03Commitment(), Some(ct_new.cl03Commitment()), &w.pk, &w.sk, &bases, Some(&w.cpk_own), &r.u);
+                }
+                if n == 2 && r.u == vec![1] && !r.trusted { env.ctx.sample(json!({"root": r.id, "flow": "commit_with_pk -> generate_proof -> verify_proof -> blind_sign -> unblind_sign -> verify_multiattr; mismatches: other commitment, every other hidden set, other bases, other key, trusted part"})); }
+            }
+            Kind::Leaf(ch, nch) => {
+                let j = to_json(&f.zkpok);
+                let leaves = int_leaf_paths(&j);
+                for (li, path) in leaves.iter().enumerate() {
+                    if li % nch != *ch { continue; }
+                    let cur = leaf_int(json_get(&j, path).unwrap()).unwrap();
+                    let mut edits: Vec<(String, Value)> = leaf_perturbations(&cur).into_iter().map(|(nm, v)| { let mut x = j.clone(); json_set(&mut x, path, int_leaf(&v)); (nm.to_string(), x) }).collect();
+                    // sibling swap: with the next integer leaf under the same parent
+                    if let Some(sib) = leaves.iter().skip(li + 1).find(|p| p.len() == path.len() && p[..p.len() - 1] == path[..path.len() - 1]) {
+                        let other_v = json_get(&j, sib).unwrap().clone();
+                        if other_v != *json_get(&j, path).unwrap() { let mut x = j.clone(); json_set(&mut x, path, other_v); json_set(&mut x, sib, int_leaf(&cur)); edits.push((format!("swap with {}", sib.last().unwrap()), x)); }
+                    }
+                    for (nm, x) in edits {
+                        let name = format!("/{} {}", path.join("/"), nm);
+                        if !env.ctx.state(&[r.id.as_bytes(), name.as_bytes()]) { continue; }
+                        let zk2: Option<ZKPoK<CL03<CS>>> = from_json(&x);
+                        let got = match &zk2 { Some(z) => issuer_verifies::<CS>(z, f.c.cl03Commitment(), ct, &w.pk, &bases, cpk, &r.u), None => O::Ok(false) };
+                        expect_bool(env, &r.id, &format!("verify_proof after leaf edit {}", name), &got, false, true, &format!("leaf-edit:/{}", path_class(path)), json!({"base": det0, "leaf": path.join("/"), "edit": nm}));
+                        env.ctx.class(&format!("leaf:{}", match got { O::Ok(false) => "rejected", O::Ok(true) => "accepted", _ => "refused-by-panic" })); env.ctx.trace();
+                    }
+                }
+                env.ctx.extra(&format!("leaves:{}", r.id.rsplitn(2, "/chunk").last().unwrap_or("")), json!(leaves.len()));
+            }
+        }
+    });
+}
